@@ -55,8 +55,18 @@ func init() {
 }
 
 func record(level, msg string, args []zap.Field) {
+	// (counters are keyed by the constant part of a message: some messages carry file names or error texts)
+	key := msg
+	for _, cut := range []string{" error=", " err=", ": ", " frac="} {
+		if i := strings.Index(key, cut); i > 0 {
+			key = key[:i]
+		}
+	}
+	if len(key) > 80 {
+		key = key[:80]
+	}
 	sinkMu.Lock()
-	sink[level+":"+msg]++
+	sink[level+":"+key]++
 	if level != "debug" && level != "info" {
 		s := level + ": " + msg
 		for _, a := range args {
